@@ -19,6 +19,7 @@ import Np.Model.Text
 import Np.Model.Print
 import Np.Model.PrintText
 import Np.Model.DivArr
+import Np.Model.ExprPow
 /-! line-protocol driver: one JSON case per line on stdin, the model's answer per line on stdout -/
 open Lean Np Np.Shape
 
@@ -79,7 +80,7 @@ def errName : Err → String
 def showErr (e : Err) : Json :=
   Json.mkObj [("status", "err"), ("kind", errName e)]
 
-partial def parseExpr (j : Json) : E Expr := do
+partial def parseExpr (j : Json) : E Expr2 := do
   match j with
   | .arr a =>
     let op ← a[0]!.getStr?
@@ -91,6 +92,7 @@ partial def parseExpr (j : Json) : E Expr := do
     | "neg" => pure (.neg (← parseExpr a[1]!))
     | "pos" => pure (.pos (← parseExpr a[1]!))
     | "pow" => pure (.pow (← parseExpr a[1]!) (← jNat a[2]!))
+    | "powarr" => pure (.powArr (← parseExpr a[1]!) (← jNats a[2]!) (← jNats a[3]!))
     | _ => throw "bad expr op"
   | _ => throw "bad expr"
 
@@ -152,7 +154,7 @@ def runCase (j : Json) : E Json := do
   | "expr" =>
     let env ← (← jList (← j.getObjVal? "env")).mapM parseArr
     let t ← parseExpr (← j.getObjVal? "tree")
-    match evalModel rc rn env t with
+    match evalModel2 rc rn env t with
     | .ok r => pure (showArr r)
     | .error e => pure (showErr e)
   | "powarr" =>
